@@ -316,6 +316,45 @@ func c06cases(thorough bool) []c06case {
 			cs = append(cs, c)
 		}
 	}
+	// long actor lists (5..9, 12 and 17 distinct actors; IRI and embedded in turn), exactly one of them blocked,
+	// at every position; and two actors whose ids differ only in letter case, the later one blocked
+	for _, n := range []int{5, 6, 7, 8, 9, 12, 17} {
+		for p := 0; p < n; p++ {
+			if n > 9 && p != 0 && p != n-1 && p != n/2 && p%4 != 0 {
+				continue
+			}
+			var av L
+			var ids []string
+			for i := 0; i < n; i++ {
+				id := fmt.Sprintf("https://r1.example/u/p%d", i)
+				ids = append(ids, id)
+				if i%2 == 1 {
+					av = append(av, Emb("Person", id))
+				} else {
+					av = append(av, id)
+				}
+			}
+			blocked := ids[p]
+			c := c06case{family: "block", name: fmt.Sprintf("Like by %d actors, #%d blocked", n, p), body: Doc("Like", RAct, "actor", av, "object", Note1), wantBlocked: ids, mustRefuse: true}
+			c.tweak = func(a *ap.App) { a.BlockedSet[blocked] = true }
+			cs = append(cs, c)
+		}
+		if n <= 6 {
+			var av L
+			var ids []string
+			for i := 0; i < n-2; i++ {
+				id := fmt.Sprintf("https://r1.example/u/p%d", i)
+				ids = append(ids, id)
+				av = append(av, id)
+			}
+			lower, upper := "https://r1.example/u/mallory", "https://r1.example/u/Mallory"
+			ids = append(ids, lower, upper)
+			av = append(L{lower}, append(av, upper)...)
+			c := c06case{family: "block", name: fmt.Sprintf("Like by %d actors, two ids differing in case, the later one blocked", n), body: Doc("Like", RAct, "actor", av, "object", Note1), wantBlocked: ids, mustRefuse: true}
+			c.tweak = func(a *ap.App) { a.BlockedSet[upper] = true }
+			cs = append(cs, c)
+		}
+	}
 	cs = append(cs, c06case{family: "block", name: "Like block-check-errors", body: Doc("Like", RAct, "actor", L{Carol, Emb("Person", Dave)}, "object", Note1),
 		wantBlocked: []string{Carol, Dave}, mustRefuse: true, tweak: func(a *ap.App) { a.BlockedOutcome = ap.Error }})
 	return cs
@@ -342,7 +381,7 @@ func C06(tier string) int {
 			cases = append(cases, v)
 		}
 	}
-	res.Rule = fmt.Sprintf("(a) Update/Delete with the activity id on a host (default and non-default port) and every sequence of 1..%d object ids over hosts {same, other domain, other port, explicit default port, sub-domain, upper-case, parent domain}, embedded / IRI / embedded Link or Mention carrying the id plus an href on the activity's own host, keeping the sequences that contain a host that must be refused; (b) Accept with the stored Follow in {ours, ours with two objects, ours with two actors, absent, a Note, another actor's, lacking the accepting actor, a Like / Block / Offer / Create of the local actor naming the peer} x Follow embedded / by IRI (the peer's copy always supports its claim) x 14 accepting-actor sets (IRI, embedded actor, Link / Mention with id and differing href, Mention with href only, ids differing from a followed actor's only in path case / a trailing slash / a fragment / a query); (c) Undo with actor sets equal / superset / subset / disjoint / overlapping / differing only in path case, trailing slash, fragment, query or by being a prefix, embedded / IRI / embedded with the copy forged to claim the Undo's actors, 1..2 undone activities; (c') the same with Link-spelled actors whose id and href disagree; (d) every sequence of 1..3 activity actors (IRI / embedded actor / Link with id and another href / Mention with href only) x blocked subsets, and an erroring block check; %d requests; every refused Update / Delete / Undo again after a LEGITIMATE activity carrying the same id was accepted at another local inbox of the same Actor; every refused or unverified Update / Delete / Accept / Undo again with each single (thorough: double) seam call failing (no write, no Undo callback, no state change beyond the inbox entry whatever fails); oracle: refusal implies the request fails and the state differs from the initial one at most by the inbox entry", map[bool]int{false: 3, true: 4}[res.Thorough()], len(cases))
+	res.Rule = fmt.Sprintf("(a) Update/Delete with the activity id on a host (default and non-default port) and every sequence of 1..%d object ids over hosts {same, other domain, other port, explicit default port, sub-domain, upper-case, parent domain}, embedded / IRI / embedded Link or Mention carrying the id plus an href on the activity's own host, keeping the sequences that contain a host that must be refused; (b) Accept with the stored Follow in {ours, ours with two objects, ours with two actors, absent, a Note, another actor's, lacking the accepting actor, a Like / Block / Offer / Create of the local actor naming the peer} x Follow embedded / by IRI (the peer's copy always supports its claim) x 14 accepting-actor sets (IRI, embedded actor, Link / Mention with id and differing href, Mention with href only, ids differing from a followed actor's only in path case / a trailing slash / a fragment / a query); (c) Undo with actor sets equal / superset / subset / disjoint / overlapping / differing only in path case, trailing slash, fragment, query or by being a prefix, embedded / IRI / embedded with the copy forged to claim the Undo's actors, 1..2 undone activities; (c') the same with Link-spelled actors whose id and href disagree; (d) every sequence of 1..3 activity actors (IRI / embedded actor / Link with id and another href / Mention with href only) x blocked subsets, lists of 5..9, 12 and 17 distinct actors with exactly one blocked at every position, two actors whose ids differ only in letter case with the later one blocked, and an erroring block check; %d requests; every refused Update / Delete / Undo again after a LEGITIMATE activity carrying the same id was accepted at another local inbox of the same Actor; every refused or unverified Update / Delete / Accept / Undo again with each single (thorough, and the Undo family always: double) seam call failing (no write, no Undo callback, no state change beyond the inbox entry whatever fails); oracle: refusal implies the request fails and the state differs from the initial one at most by the inbox entry", map[bool]int{false: 3, true: 4}[res.Thorough()], len(cases))
 	res.Assumptions = []string{"hosts differing only in case or by an explicit default port may be accepted or refused", "positive application for equal hosts is C04's"}
 	var mu sync.Mutex
 	chunk := 100
@@ -484,7 +523,7 @@ func C06(tier string) int {
 			res.Violate(v.key, v.what, v.rep)
 		}
 	})
-	// ---- every refused / unverified request again with each single (thorough: double) seam call failing:
+	// ---- every refused / unverified request again with each single (thorough, and the Undo family always: double) seam call failing:
 	// a failure on the way (the undone activity or the Follow cannot be fetched, a read fails) must not
 	// turn a refusal into an acceptance ----
 	var fcases []c06case
@@ -509,6 +548,9 @@ func C06(tier string) int {
 		sc := &Scenario{Name: c.name, Kind: ap.Both, Entry: "PostInbox", URL: inbox(Alice), Body: c.body, Tweak: c.tweak}
 		e := &mc.Explorer{}
 		e.Budget = [3]int{0, fbound, 0}
+		if c.family == "undo" {
+			e.Budget = [3]int{0, 2, 0} // the Undo family is small: two simultaneous faults in the quick tier too
+		}
 		n := 0
 		type viol struct {
 			key, what string
